@@ -60,7 +60,7 @@ add(Contract(
         ("silent-pure", "implies(silent, ntokens(state) == old(ntokens(state)) and state.pending == old(state.pending))", ["C01"]),
         ("level", "state.level == old(state.level) and state.posMax == old(state.posMax)", ["C01", "C02"]),
         ("escape-advances-2", "implies(result and state.src[P1] != '\\n' and not (state.src[P1] >= '\\ud800' and state.src[P1] <= '\\udbff'), state.pos == P0 + 2)", ["C09"]),
-        ("escape-token", "implies(result and not silent and state.src[P1] != '\\n', T[-1].type == 'text_special' and T[-1].nesting == 0 and T[-1].level == old(state.level) and T[-1].info == 'escape')", ["C09", "C02"]),
+        ("escape-token", "implies(result and not silent and state.src[P1] != '\\n', T[-1].type == 'text_special' and T[-1].nesting == 0 and T[-1].level == old(state.level) and T[-1].info == 'escape')", ["C09", "C02", "C19"]),
         ("escape-literal", f"implies(result and not silent and state.src[P1] != '\\n' and {ESCAPED}, T[-1].content == state.src[P1])", ["C09"]),
         ("non-escapable-kept", f"implies(result and not silent and state.src[P1] != '\\n' and not {ESCAPED} and not (state.src[P1] >= '\\ud800' and state.src[P1] <= '\\udbff'), "
                                "len(T[-1].content) == 2 and T[-1].content[0] == '\\\\' and T[-1].content[1] == state.src[P1])", ["C09"]),
